@@ -16,6 +16,9 @@
 // Modes
 //   dump  CLASS vec|tt OUTFILE SEED     generate, [tt: hash traffic], probe every placement
 //   scope CLASS vec|tt SEED N           probe N positions OUTSIDE the class / with castling rights
+//   rules CLASS SEED N                  N random placements: legality, check and all legal successor
+//                                       placements according to the engine's ordinary MoveGen (validates
+//                                       the SPECIFICATION coq/TB/MiniChess.v, not the table generator)
 //   script SEED                          op sequence on one TranspositionTable, ops on stdin:
 //        U CLASS DELAY       updateTB(root of CLASS); DELAY >= 0 (microseconds) or pN (N permille of
 //                            the duration of the last complete generation in this process): a second
@@ -48,6 +51,9 @@
 #include "move.hpp"
 #include "constants.hpp"
 #include "textio.hpp"
+#include "moveGen.hpp"
+#include "undoInfo.hpp"
+#include <algorithm>
 
 typedef long long i64;
 
@@ -317,6 +323,55 @@ static int modeScope(int argc, char** argv) {
     return 0;
 }
 
+// the chess rules of the checker's specification (coq/TB/MiniChess.v) against the engine's
+// ordinary move generator: legality of the placement, check, every legal successor position
+static int modeRules(int argc, char** argv) {
+    if (argc < 5) return 3;
+    Cls c = parseClass(argv[2]);
+    Rng rng((U64)std::atoll(argv[3]));
+    int n = std::atoi(argv[4]);
+    Placer pl;
+    int d[8];
+    for (int it = 0; it < n; ) {
+        for (int i = 0; i < c.k; i++) {
+            bool king = c.piece[i] == Piece::WKING || c.piece[i] == Piece::BKING;
+            d[i] = (!king && rng.below(12) == 0) ? 64 : rng.below(64);
+        }
+        bool wtm = rng.below(2) == 0;
+        if (!pl.place(c, d, wtm)) continue;
+        it++;
+        i64 idx = 0;
+        for (int i = 0; i < c.k; i++) idx = idx * 65 + d[i];
+        if (!wtm) idx += c.n65;
+        Position pos(pl.pos);
+        if (MoveGen::canTakeKing(pos)) { std::printf("RULES %lld illegal\n", idx); continue; }
+        MoveList ml;
+        MoveGen::pseudoLegalMoves(pos, ml);
+        MoveGen::removeIllegal(pos, ml);
+        // successor placements, as sorted dump indices
+        std::vector<i64> succ;
+        for (int m = 0; m < ml.size; m++) {
+            UndoInfo ui;
+            const Move& mv = ml[m];
+            int e[8];
+            for (int i = 0; i < c.k; i++) e[i] = d[i];
+            int from = mv.from().asInt(), to = mv.to().asInt();
+            for (int i = 0; i < c.k; i++) if (e[i] == to) e[i] = 64;       // captured
+            for (int i = 0; i < c.k; i++) if (d[i] == from) e[i] = to;
+            i64 s = 0;
+            for (int i = 0; i < c.k; i++) s = s * 65 + e[i];
+            if (wtm) s += c.n65;                                          // other side to move
+            succ.push_back(s);
+            (void)ui;
+        }
+        std::sort(succ.begin(), succ.end());
+        std::printf("RULES %lld %d", idx, MoveGen::inCheck(pos) ? 1 : 0);
+        for (i64 s : succ) std::printf(" %lld", s);
+        std::printf("\n");
+    }
+    return 0;
+}
+
 static std::vector<int16_t> loadDump(const std::string& path, i64 expect) {
     std::vector<int16_t> v;
     FILE* f = std::fopen(path.c_str(), "rb");
@@ -428,5 +483,6 @@ int main(int argc, char** argv) {
     if (mode == "dump") return modeDump(argc, argv);
     if (mode == "scope") return modeScope(argc, argv);
     if (mode == "script") return modeScript(argc, argv);
+    if (mode == "rules") return modeRules(argc, argv);
     return 3;
 }
